@@ -387,7 +387,7 @@ def _live_ops(w: ops.World, groups, rng):
             out.append(("sort", rng.choice(P), rng.choice([None, "const"]), rng.random() < 0.5, rng.random() < 0.5))
         elif kind == "meta" and live:
             i = rng.choice(live)
-            out.append(rng.choice([("set_meta", i, "k", 1), ("set_meta", i, "k", None), ("clear_meta", i, "k"), ("clear_meta", i, None), ("update_meta", i, (("j", 2),), rng.random() < 0.5), ("update_meta", i, (), True)]))
+            out.append(rng.choice([("set_meta", i, "k", 1), ("set_meta", i, "k", None), ("clear_meta", i, "k"), ("clear_meta", i, None), ("update_meta", i, (("j", 2),), rng.random() < 0.5), ("update_meta", i, (), True), ("update_meta", i, (("k", None), ("j", 0)), rng.random() < 0.5)]))
         elif kind == "del":
             out.append(("del", rng.choice(labels)))
     return out
